@@ -1974,6 +1974,23 @@ struct Explorer {
     for (auto& s : v->stmts)
       if (!s.phony) for (auto& h : s.spec.hidden) if (!before.Get(h) && !v->producer.count(h)) discovered_missing = true;
     if (rt.exit_code != 0 && discovered_missing && rt.out.find("missing and no known rule") != string::npos) return;
+    // a source input that only a dyndep file names is missing: the manifest form fails before any command, the dyndep
+    // form must fail with the same error as soon as the file that names it has been loaded -- nothing may start after
+    // the (last) producer of a dyndep file has finished, and nothing at all when no such producer ran
+    if (r.exit_code != 0 && rt.exit_code != 0 && rt.cmds.empty() && rt.out.find("missing and no known rule") != string::npos &&
+        r.out.find("missing and no known rule") != string::npos && string(prop) == "C11") {
+      set<string> ddfiles;
+      for (auto& s : v->stmts) if (!s.dyndep.empty()) ddfiles.insert(s.dyndep);
+      int last_dd_finish = -1;
+      vector<int> st_ev(r.cmds.size(), -1);
+      for (size_t i = 0; i < r.events.size(); ++i) {
+        if (r.events[i].kind == Event::kStart) st_ev[r.events[i].cmd] = (int)i;
+        if (r.events[i].kind == Event::kFinish && ddfiles.count(r.cmds[r.events[i].cmd].spec.id())) last_dd_finish = (int)i;
+      }
+      bool late = false;
+      for (size_t c = 0; c < r.cmds.size(); ++c) if (st_ev[c] > last_dd_finish) late = true;
+      if (!late) return;
+    }
     set<string> a, b;
     for (auto& c : r.cmds) if (tv->producer.count(c.spec.id())) a.insert(c.spec.id());
     for (auto& c : rt.cmds) if (v->producer.count(c.spec.id())) b.insert(c.spec.id());
